@@ -127,12 +127,12 @@ def qcase(kind, n, nb, K=None, L=None, M=None, T=None, out=None, tol=0):
 
 
 # ------------------------------------------------------------------ generators (exact kernels)
-KINDS = ["loopit", "convert", "tdconvert", "lindblad", "secular", "transform", "applyops", "update", "deph", "rfadd"]
+KINDS = ["loopit", "convert", "tdconvert", "lindblad", "secular", "transform", "applyops", "update", "deph", "rfadd", "secular_in"]
 
 
 def gen_exact(r, k):
     kind = KINDS[k % len(KINDS)]
-    n = r.choice([1, 2, 2, 3, 3, 4]) if kind not in ("transform", "secular") else r.choice([1, 2, 2, 3])
+    n = r.choice([1, 2, 2, 3, 3, 4]) if kind not in ("transform", "secular", "secular_in") else r.choice([1, 2, 2, 3])
     nb = r.choice([1, 2, 3])
     c = {"kind": kind, "n": n, "nb": nb, "seed": r.randrange(2 ** 30)}
     c["proper"] = r.random() < 0.7           # callers' Kd = K^T, Ld = L^dagger; else arbitrary matrices
@@ -263,6 +263,53 @@ def run_exact(chk, c, zitems, qitems, zmeta, qmeta):
         if c["proper"]:
             mon("secularize", out)
         zitems.append(zcase("KSecular", n, 1, T=T, out=out))
+    elif kind == "secular_in":
+        # a tensor created outside, secularised as the FIRST access inside a freshly entered context: the projection must act on
+        # the representation of that context (exact: the context operator is a permuted diagonal matrix, so eigh returns a signed
+        # permutation), and leaving the context must hand back the transformed-back secular tensor
+        reset_manager()
+        T = good_tensor(r, n)
+        from quantarhei.qm.hilbertspace.operators import SelfAdjointOperator
+        d = r.sample(range(-6, 9), n)
+        v = c["variant"]
+        dense = (v >= 2 and n >= 2)
+        if dense:
+            # a genuinely mixing basis (the secular index pattern is invariant under permutations, so permutation bases
+            # cannot see in which basis the projection was applied): compared through the rational model
+            A = np.array([[float(rint(r)) for _ in range(n)] for _ in range(n)])
+            A = A + A.T + np.diag(np.arange(n, dtype=float) * 3)
+            op = SelfAdjointOperator(data=A)
+        else:
+            op = SelfAdjointOperator(data=np.diag(np.array(d, dtype=float)))
+        RT = new_reltensor(T if v % 2 == 0 else np.array([T, 2 * T]))
+        with qr.eigenbasis_of(op):
+            S = np.array(qr.Manager().basis_transformations[-1])
+            RT.secularize()
+            inside = np.array(RT.data)
+        inside = inside if v % 2 == 0 else inside[1] / 2
+        if dense:
+            sc_ = max(1e-30, float(np.max(np.abs(inside))))
+            if secular_dev(inside) > 1e-10 * sc_:
+                viol = ("secularize:in_context", "secularize() called first thing inside a basis context (dense eigenbasis) leaves non-secular "
+                        "elements of size %g (scale %g) in the basis of that context" % (secular_dev(inside), sc_))
+            elif trace_dev(inside) > 1e-10 * sc_ or herm_dev(inside) > 1e-10 * sc_:
+                viol = ("secularize:in_context:identities", "trace/Hermiticity identities lost: %g / %g" % (trace_dev(inside), herm_dev(inside)))
+            qitems.append(qcase("QSecularIn", n, 1, M=S, T=T, out=inside, tol=1e-11 * sc_))
+            qmeta.append(c)
+            if viol:
+                chk.violation("kernel:" + viol[0], "%s (case %s): %s" % (kind, json.dumps(c), viol[1]), "monitor", c)
+            chk.count("kernel:" + kind + ":dense")
+            chk.case(("exact", json.dumps(c, sort_keys=True)), True)
+            reset_manager()
+            return
+        if not np.array_equal(np.abs(S), np.round(np.abs(S))):
+            raise AssertionError("diagonaliser is not a signed permutation")
+        if secular_dev(inside) != 0:
+            viol = ("secularize:in_context", "secularize() called first thing inside a basis context leaves non-secular elements of size %g "
+                    "in the basis of that context" % secular_dev(inside))
+        mon("secularize(in context)", inside)
+        zitems.append(zcase("KSecularIn", n, 1, M=S, T=T, out=inside))
+        reset_manager()
     elif kind == "transform":
         T = good_tensor(r, n)
         S = signed_perm(r, n)
@@ -452,8 +499,9 @@ def run_e2e(chk, c, qitems, qmeta):
                 if c["cutoff"] and th in ("stR", "stR_ops", "cRF"):
                     kw["relaxation_cutoff_time"] = 300.0
                 if th == "cRF":
+                    crf_cut = float(rs.choice([20.0, 70.0, 200.0]))
                     with qr.energy_units("1/cm"):
-                        RT, ham = agg.get_RelaxationTensor(ta, coupling_cutoff=float(rs.choice([20.0, 70.0, 200.0])), **kw)
+                        RT, ham = agg.get_RelaxationTensor(ta, coupling_cutoff=crf_cut, **kw)
                 elif th == "stR_ops":
                     RTo, ham = agg.get_RelaxationTensor(ta, as_operators=True, **dict(kw, secular_relaxation=False))
                     RT, ham = agg.get_RelaxationTensor(ta, **dict(kw, secular_relaxation=False))
@@ -557,6 +605,16 @@ def run_e2e(chk, c, qitems, qmeta):
             # The Foerster branches of get_RelaxationTensor do not secularise (the option is ignored there).
             if th == "Lf":
                 dsec = views[0][1]
+            elif th == "cRF":
+                # built and secularised in the eigenbasis of the Hamiltonian with the couplings reduced by the cut-off
+                # (subtract_cutoff_coupling - not the one with small couplings removed that is handed back)
+                with qr.energy_units("1/cm"):
+                    ham.subtract_cutoff_coupling(crf_cut)
+                ham.protect_basis()
+                with qr.eigenbasis_of(ham):
+                    dsec = np.array(RT.data)
+                ham.unprotect_basis()
+                ham.recover_cutoff_coupling()
             else:
                 with qr.eigenbasis_of(relham):
                     dsec = np.array(RT.data)
